@@ -138,6 +138,7 @@ def explore_cfg(cfg, acc, tier):
     fails = []
     npairs = p * (p - 1) // 2
     prob = cfg["k"] / (p - 1) if cfg["fn"] == "avg" else None
+    crashed = lambda: sum(1 for f in fails if f[2] == "raises") >= 3        # the generator raises: no point in walking the whole answer tree
 
     def runner(order, sink):
         def run(prefix):
@@ -167,7 +168,7 @@ def explore_cfg(cfg, acc, tier):
         rel = {}
         for order in ("H", "L"):
             runs = {}
-            tape.explore(runner(order, lambda prefix, info: runs.__setitem__(tuple(prefix), info)), bound=1, branch=is_mask)
+            tape.explore(runner(order, lambda prefix, info: runs.__setitem__(tuple(prefix), info)), bound=1, branch=is_mask, stop=crashed)
             base = runs.get(())
             if base is None:
                 return fails
@@ -201,7 +202,9 @@ def explore_cfg(cfg, acc, tier):
         table[(perm, lows)] = info
 
     cap = 400000
-    n, capped = tape.explore(runner("L", sinkA), bound=None, max_exec=cap,
+    if crashed():
+        return fails
+    n, capped = tape.explore(runner("L", sinkA), bound=None, max_exec=cap, stop=crashed,
                              branch=lambda pt: is_perm(pt) or (is_mask(pt) and pt["addr"] in (relevant or ())))
     acc.extra["phaseA_executions"] += n
     if capped:
@@ -241,7 +244,7 @@ def explore_cfg(cfg, acc, tier):
     # ---- phase B: weight cells, single deviations from the all-present baseline (two permutations)
     if cfg["range"][0] != cfg["range"][1] and (prob is None or prob > 0):
         runs = {}
-        tape.explore(runner("L", lambda prefix, info: runs.__setitem__(tuple(prefix), info)), bound=1, branch=is_weight)
+        tape.explore(runner("L", lambda prefix, info: runs.__setitem__(tuple(prefix), info)), bound=1, branch=is_weight, stop=crashed)
         base = runs.get(())
         if base is not None:
             influence = {}
@@ -266,7 +269,9 @@ def explore_cfg(cfg, acc, tier):
 def run_unit(unit):
     acc = Acc()
     cfg = unit
+    b0 = tape.BUDGET_EVENTS[0]
     fails = explore_cfg(cfg, acc, _TIER[0])
+    acc.undecided += tape.BUDGET_EVENTS[0] - b0          # executions abandoned at the draw budget (unbounded consumption of randomness)
     seen = set()
     for kind, case, sig, msg in fails:
         if (kind, sig) in seen and kind != "exec":
